@@ -31,8 +31,8 @@ RULE = ('forms: matrices from tables.rand_spec (dims 1..4, all value kinds incl.
         'duplicates)/lil/dok/bsr each also WITH explicitly stored zeros, lists of dok rows (a dok_matrix is a dict: another converter), '
         'mixed-layout row lists with a dok or a non-dok first row, int dtype}; of every constructed table the queries that look at '
         'stored entries are asked before anything reads nnz: matrix_data.nnz, nonzero(), min per axis and overall, against the plain '
-        'non-zero cells and against a twin built from the dense array; ctor: the same forms with ids duplicated anywhere on an axis, one id too '
-        'few / too many, metadata too short / too long / all-empty of the wrong size / holding a non-mapping (truthy or '
+        'non-zero cells and against a twin built from the dense array; then the table is transformed in place and the untouched input object must construct the described table again; ctor: the same forms with ids duplicated anywhere on an axis, one id too '
+        'few / too many, an explicit zero at a coordinate without an id as the only fault, metadata too short / too long / all-empty of the wrong size / holding a non-mapping (truthy or '
         'falsy), under the default profile (a quarter after an errstate block left by an exception) or with 1-2 kinds set to ignore/warn; adj: 1-8 records over <= 3x3 ids with '
         'repeated pairs, zero and negative values, with / without the header, with comment / blank / short lines, as '
         'list / text / file; uc: 1-10 H/S/L/N/C/comment/blank records over <= 3 seeds and <= 3 samples whose ids contain '
@@ -384,13 +384,51 @@ def zero_queries(t):
     return [stored, nz, [mn('observation'), mn('sample'), mn('whole')]]
 
 
+def freeze(x):
+    """deep, comparable picture of an input object (arrays, lists, dicts, scipy matrices of any layout)"""
+    if isinstance(x, np.ndarray):
+        return ['nd', str(x.dtype), list(x.shape), x.tolist()]
+    if isinstance(x, dict) and not hasattr(x, 'format'):
+        return ['dict', sorted([list(k), float(v)] for k, v in x.items())]
+    if isinstance(x, (list, tuple)):
+        return ['list', [freeze(v) for v in x]]
+    if hasattr(x, 'format'):
+        f = x.format
+        if f in ('csr', 'csc', 'bsr'):
+            body = [x.indptr.tolist(), x.indices.tolist(), x.data.tolist()]
+        elif f == 'coo':
+            body = [x.row.tolist(), x.col.tolist(), x.data.tolist()]
+        elif f == 'lil':
+            body = [[list(r) for r in x.rows], [list(d) for d in x.data]]
+        elif f == 'dok':
+            body = sorted([list(map(int, k)), float(v)] for k, v in x.items())
+        else:
+            body = x.toarray().tolist()
+        return ['sp', f, str(x.dtype), list(x.shape), body]
+    return x
+
+
+def reuse_check(data, kw, t, oids, sids, omd, smd, ty, before, snap):
+    """the table owns its data: work on it in place, then the caller's input object must be unchanged
+    and must construct the described table once more -> [input untouched, second table as described]"""
+    t.transform(lambda v, i, m: v * 8 + 1, axis='observation', inplace=True)
+    t.transform(lambda v, i, m: v * 2, axis='sample', inplace=True)
+    untouched = int(freeze(data) == before)
+    again = Table(data, list(oids), list(sids), _md(omd), _md(smd), type=ty, **kw)
+    return [untouched, int(T.norm_snap(T.snapshot(again)) == snap)]
+
+
 def _ctor_obs(inp, oids, sids, omd, smd, ty):
     """construct; ask the zero-sensitive queries of the fresh table and of a twin built from the plain
     dense array of the described values -> observable, table"""
-    t = _ctor(inp, oids, sids, omd, smd, ty)
+    data, kw = make_input(inp)
+    before = freeze(data)
+    t = Table(data, list(oids), list(sids), _md(omd), _md(smd), type=ty, **kw)
+    t._c17_reuse = (data, kw, before)
     if t.shape != (len(oids), len(sids)) or len(set(oids)) != len(oids) or len(set(sids)) != len(sids):
         # accepted only because the profile was changed: per-id queries make no sense, no well-formed twin
         stored = int(t.matrix_data.nnz)
+        t._c17_reuse = None
         return ['ok', T.norm_snap(T.snapshot(t)), [stored, 1, 1, 1]], t
     zq = zero_queries(t)
     snap = T.norm_snap(T.snapshot(t))
@@ -505,7 +543,14 @@ def _run_impl(c):
                 tabs.append(None)
                 obs.append(['err', T.err_code(e)])
         eq = [[int(a is not None and b is not None and bool(a == b) and not bool(a != b)) for b in tabs] for a in tabs]
-        return ['forms', obs, eq]
+        reuse = []
+        for t, o in zip(tabs, obs):
+            if t is None or not getattr(t, '_c17_reuse', None):
+                reuse.append([1, 1])
+            else:
+                data, kw, before = t._c17_reuse
+                reuse.append(reuse_check(data, kw, t, s['oids'], s['sids'], s['omd'], s['smd'], s['type'], before, o[1]))
+        return ['forms', obs, eq, reuse]
     if k == 'ctor':
         if c.get('after_errstate'):
             # an errstate block that was left by an exception: the rejection must not depend on that history
@@ -520,9 +565,15 @@ def _run_impl(c):
         with warnings.catch_warnings():
             warnings.simplefilter('ignore')
             try:
-                return _ctor_obs(c['inp'], c['oids'], c['sids'], c['omd'], c['smd'], c['type'])[0]
+                o, t = _ctor_obs(c['inp'], c['oids'], c['sids'], c['omd'], c['smd'], c['type'])
             except Exception as e:
                 return ['err', T.err_code(e)]
+            if getattr(t, '_c17_reuse', None) and not c.get('profile'):
+                data, kw, before = t._c17_reuse
+                o.append(reuse_check(data, kw, t, c['oids'], c['sids'], c['omd'], c['smd'], c['type'], before, o[1]))
+            else:
+                o.append([1, 1])
+            return o
     if k == 'adj':
         lines = render_adj(c['lines'])
         via = c['via']
@@ -610,7 +661,7 @@ def dec_result(tree, cd, zq=False):
         return ['ok', snap]
     # every converter ends with eliminate_zeros (the constructor does it for a scipy matrix): the
     # table holds exactly the non-zero cells of the model's matrix and answers like its dense twin
-    return ['ok', snap, [sum(1 for row in raw['mat'] for v in row if v != 0), 1, 1, 1]]
+    return ['ok', snap, [sum(1 for row in raw['mat'] for v in row if v != 0), 1, 1, 1]] + ([[1, 1]] if zq == 'ctor' else [])
 
 
 def decode(tree, c):
@@ -619,9 +670,9 @@ def decode(tree, c):
     if k == 'forms':
         obs = [dec_result(t, cd, True) for t in tree]
         eq = [[int(a[0] == 'ok' and b[0] == 'ok' and a == b) for b in obs] for a in obs]
-        return ['forms', obs, eq]
+        return ['forms', obs, eq, [[1, 1] for _ in obs]]
     if k == 'ctor':
-        return dec_result(tree, cd, True)
+        return dec_result(tree, cd, 'ctor')
     if k == 'adj':
         return dec_result(tree, cd)
     if tree[0] == -1:
@@ -660,7 +711,7 @@ def gen_ctor(rng):
     mal = []
     n = rng.choice([1, 1, 1, 2])
     for _ in range(n):
-        m = rng.choice(['dup', 'dup', 'few', 'many', 'md_short', 'md_long', 'md_empty_wrong', 'md_nonmap',
+        m = rng.choice(['dup', 'dup', 'few', 'many', 'zero_beyond', 'md_short', 'md_long', 'md_empty_wrong', 'md_nonmap',
                         'md_nonmap_falsy', 'md_all_falsy', 'md_empty_list', 'none'])
         ax = rng.choice(['o', 's'])
         ids = oids if ax == 'o' else sids
@@ -677,6 +728,22 @@ def gen_ctor(rng):
                 m = 'none'
         elif m == 'many':
             ids.insert(rng.randint(0, len(ids)), 'extra%d' % rng.randint(0, 9))
+        elif m == 'zero_beyond':
+            # the ONLY thing wrong: an explicitly given zero at a coordinate that has no id
+            if inp[0] not in ('triples', 'dict', 'rowdicts'):
+                v = rng.choice(['triples', 'triples_zeros', 'triples_dups', 'dict', 'dict_zeros', 'rowdicts', 'rowdicts_zeros'])
+                inp = encode_matrix(rng, v, M)
+            if inp[0] in ('triples', 'dict'):
+                r_, c_ = (len(oids) + rng.randint(0, 1), rng.randrange(max(1, len(sids)))) if ax == 'o' else \
+                    (rng.randrange(max(1, len(oids))), len(sids) + rng.randint(0, 1))
+                inp = [inp[0], [list(e) for e in inp[1]] + [[r_, c_, 0.0]]]
+                rng.shuffle(inp[1])
+            elif inp[0] == 'rowdicts' and inp[1]:
+                rows = [[list(e) for e in row] for row in inp[1]]
+                rows[rng.randrange(len(rows))].append([0, len(sids) + rng.randint(0, 1), 0.0])
+                inp = ['rowdicts', rows]
+            else:
+                m = 'none'
         elif m.startswith('md_') and not ids:
             m = 'none'
         elif m.startswith('md_'):
@@ -845,6 +912,15 @@ def is_malformed(c):
     return why
 
 
+def reuse_fails(v, r):
+    fails = []
+    if not r[0]:
+        fails.append('input form %s: the caller\'s input object was changed by constructing a table from it and working on that table in place' % v)
+    if not r[1]:
+        fails.append('input form %s: after in-place work on the first table, the same input object no longer yields the described table' % v)
+    return fails
+
+
 def zero_fails(v, o, mat):
     """a table built from any form stores exactly the non-zero cells and answers the queries that look at
     stored entries (nonzero, min, stored count) like the table built from the plain dense array"""
@@ -878,6 +954,8 @@ def oracle(c, obs):
                 fails.append('input form %s does not yield the described table' % v)
             else:
                 fails += zero_fails(v, o, c['spec']['mat'])
+        for v, r in zip(c['variants'], obs[3] if len(obs) > 3 else []):
+            fails += reuse_fails(v, r)
         for i, row in enumerate(obs[2]):
             for j, e in enumerate(row):
                 if not e and obs[1][i][0] == 'ok' and obs[1][j][0] == 'ok':
@@ -903,6 +981,8 @@ def oracle(c, obs):
                     fails.append('input form %s does not yield the described values' % c['variant'])
                 else:
                     fails += zero_fails(c['variant'], obs, expected_dense(c['inp'], nr, nc))
+                    if len(obs) > 3:
+                        fails += reuse_fails(c['variant'], obs[3])
         return fails
     if k == 'adj':
         recs = [ln for ln in c['lines'] if ln[0] == 'rec']
